@@ -51,6 +51,9 @@ func eval(c Case) (evid.Verdict, bool) {
 		c2 := c
 		c2.Ck, c2.Then, c2.Variant = c.Then, 0, "correct"
 		if v2, _ := eval1(c2); !v2.OK {
+			if v2.Sig == "harness" {
+				return v2, false
+			}
 			v2.Sig = "after-sibling-type:" + v2.Sig
 			v2.Msg = fmt.Sprintf("after computing checksum type %d with the same key octets and usage: %s", c.Ck, v2.Msg)
 			return v2, false
